@@ -31,7 +31,118 @@ def check(times, hook_type="order", is_before=True):
         return None
 
 
+# ----------------------------------------------------------------------------- dispatch: each trigger invokes exactly the matching hooks, once, with the occurrence's own time
+class Rec(EventABC):
+    def __init__(self, *a, **kw):
+        super().__init__(*a, **kw); self.calls = []
+
+    def hook_registration(self):
+        return []
+
+    def hooked_before_order(self, simulator, order): self.calls.append(("order", True, id(order)))
+    def hooked_after_order(self, simulator, order_log): self.calls.append(("order", False, id(order_log)))
+    def hooked_before_cancel(self, simulator, cancel): self.calls.append(("cancel", True, id(cancel)))
+    def hooked_after_cancel(self, simulator, cancel_log): self.calls.append(("cancel", False, id(cancel_log)))
+    def hooked_after_execution(self, simulator, execution_log): self.calls.append(("execution", False, id(execution_log)))
+    def hooked_before_session(self, simulator, session): self.calls.append(("session", True, id(session)))
+    def hooked_after_session(self, simulator, session): self.calls.append(("session", False, id(session)))
+    def hooked_before_step_for_market(self, simulator, market): self.calls.append(("market", True, id(market)))
+    def hooked_after_step_for_market(self, simulator, market): self.calls.append(("market", False, id(market)))
+
+
+KINDS = [("order", True), ("order", False), ("cancel", True), ("cancel", False), ("execution", False), ("session", True), ("session", False), ("market", True), ("market", False)]
+
+
+def check_dispatch(case):
+    """hooks (kind, time list, market filter) are registered; one occurrence of `kind` happens at time `now`; the occurrence's other
+    time-like fields (order placement time of a cancel, ...) are deliberately different from `now`"""
+    from pams.index_market import IndexMarket
+    from pams.logs import CancelLog, ExecutionLog, OrderLog
+    from pams.market import Market
+    from pams.order import LIMIT_ORDER, Cancel, Order
+    from pams.session import Session
+    kind, before, now, hooks = case["kind"], case["before"], case["now"], case["hooks"]
+    sim = Simulator(prng=random.Random(0))
+    m0 = Market(market_id=0, prng=random.Random(1), simulator=sim, name="m0"); m0.setup({"tickSize": 1.0, "marketPrice": 10.0})
+    m1 = IndexMarket(market_id=1, prng=random.Random(1), simulator=sim, name="m1"); m1.setup({"tickSize": 1.0, "marketPrice": 10.0, "markets": []})
+    sim._add_market(m0); sim._add_market(m1)
+    occ_market = m1 if case.get("on_index") else m0
+    for m in (m0, m1):
+        m.time = now
+    evs = []
+    for hk, hbefore, times, flt in hooks:
+        ev = Rec(event_id=len(evs), prng=random.Random(0), session=None, simulator=sim, name=f"e{len(evs)}")
+        kw = {}
+        if hk == "market" and flt == "class":
+            kw["specific_class"] = IndexMarket
+        if hk == "market" and flt == "instance":
+            kw["specific_instance"] = m0
+        sim._add_event(EventHook(event=ev, hook_type=hk, is_before=hbefore, time=times, **kw))
+        evs.append((ev, hk, hbefore, times, flt))
+    other = now + 3       # a time that is NOT the occurrence's time
+    order = Order(agent_id=0, market_id=occ_market.market_id, is_buy=True, kind=LIMIT_ORDER, volume=1, price=10.0, placed_at=other, order_id=7)
+    if kind == "order":
+        if before:
+            o = Order(agent_id=0, market_id=occ_market.market_id, is_buy=True, kind=LIMIT_ORDER, volume=1, price=10.0); sim._trigger_event_before_order(o); key = id(o)
+        else:
+            lg = OrderLog(order_id=1, market_id=occ_market.market_id, time=now, agent_id=0, is_buy=True, kind=LIMIT_ORDER, volume=1, price=10.0, ttl=None); sim._trigger_event_after_order(lg); key = id(lg)
+    elif kind == "cancel":
+        if before:
+            c = Cancel(order=order); sim._trigger_event_before_cancel(c); key = id(c)
+        else:
+            lg = CancelLog(order_id=7, market_id=occ_market.market_id, cancel_time=now, order_time=other, agent_id=0, is_buy=True, kind=LIMIT_ORDER, volume=1, price=10.0, ttl=None)
+            sim._trigger_event_after_cancel(lg); key = id(lg)
+    elif kind == "execution":
+        lg = ExecutionLog(market_id=occ_market.market_id, time=now, buy_agent_id=0, sell_agent_id=1, buy_order_id=1, sell_order_id=2, price=10.0, volume=1)
+        sim._trigger_event_after_execution(lg); key = id(lg)
+    elif kind == "session":
+        steps = 4
+        ses = Session(session_id=0, prng=random.Random(0), session_start_time=(now if before else now - steps + 1), simulator=sim, name="s")
+        ses.iteration_steps = steps
+        (sim._trigger_event_before_session if before else sim._trigger_event_after_session)(ses); key = id(ses)
+    else:
+        (sim._trigger_event_before_step_for_market if before else sim._trigger_event_after_step_for_market)(occ_market); key = id(occ_market)
+    order_seen = []
+    for ev, hk, hbefore, times, flt in evs:
+        match = hk == kind and hbefore == before and (times is None or now in times)
+        if match and hk == "market":
+            match = flt is None or (flt == "class" and isinstance(occ_market, IndexMarket)) or (flt == "instance" and occ_market is m0)
+        want = [(kind, before, key)] if match else []
+        if ev.calls != want:
+            return f"{kind} {'before' if before else 'after'} at time {now}: hook ({hk}, before={hbefore}, times={times}, filter={flt}) was invoked {len(ev.calls)} time(s) {ev.calls[:2]}, expected {len(want)}"
+    return None
+
+
+def dispatch_cases():
+    tls = [None, [2], [5], [2, 5], []]
+    for kind, before in KINDS:
+        for now in (2, 5):
+            for t1 in tls:
+                for t2 in tls:
+                    flts = [None, "class", "instance"] if kind == "market" else [None]
+                    for f1 in flts:
+                        for on_index in ((False, True) if kind == "market" else (False,)):
+                            other_kind = KINDS[(KINDS.index((kind, before)) + 1) % len(KINDS)]
+                            hooks = [(kind, before, t1, f1), (kind, before, t2, None), (other_kind[0], other_kind[1], None, None)]
+                            if kind == "market":
+                                hooks.insert(1, (kind, before, None, "instance" if f1 != "instance" else "class"))
+                            yield {"kind": kind, "before": before, "now": now, "hooks": hooks, "on_index": on_index}
+
+
 def search(seed, tier, obligation, hints):
+    r = search_registration(seed, tier, obligation, hints)
+    if r.get("found"):
+        return r
+    cases = r.get("cases", 0)
+    for case in dispatch_cases():
+        cases += 1
+        why = check_dispatch(case)
+        if why:
+            return {"found": True, "input": {"dispatch": case}, "observed": {"function": "Simulator._trigger_event_*", "clause": why}, "witness_key": "dispatch|" + case["kind"], "cases": cases}
+    return {"found": False, "cases": cases}
+
+
+def search_registration(seed, tier, obligation, hints):
     cases = 0
     for n in range(0, 4):
         for times in itertools.product([0, 1, 2], repeat=n):
@@ -44,5 +155,8 @@ def search(seed, tier, obligation, hints):
 
 
 def replay(inp):
+    if "dispatch" in inp:
+        why = check_dispatch(inp["dispatch"])
+        return {"violated": bool(why), "clause": why}
     why = check(inp["times"])
     return {"violated": bool(why), "clause": why}
